@@ -231,7 +231,9 @@ fn mft_content(files: &[(Vec<u8>, u8)]) -> Vec<u8> {
 #[derive(Clone, Copy, Debug, PartialEq, Eq, PartialOrd, Ord)]
 enum DigestV { Ok, FlipFirst, FlipLast, Short31, Long33, Empty, OfOtherContent }
 #[derive(Clone, Copy, Debug, PartialEq, Eq, PartialOrd, Ord)]
-enum SigV { Ok, OtherKey, OverImplicitTag, OverContent, FlipLastBit }
+enum SigV { Ok, OtherKey, OverImplicitTag, OverContent, FlipLastBit,
+    /// the correct signature value without its last octet / without any octet (history predecessors only)
+    Short, Empty }
 #[derive(Clone, Copy, Debug, PartialEq, Eq, PartialOrd, Ord)]
 enum SidV { Ok, OtherSki, FlipLastBit }
 #[derive(Clone, Copy, Debug, PartialEq, Eq, PartialOrd, Ord)]
@@ -257,12 +259,21 @@ struct Plan {
     ee: EeV,
     ct: CtV,
     card: CardV,
+    /// value of the signing-time attribute (seconds since the epoch); no stated condition mentions it
+    st_secs: i64,
+    /// further signed attributes: (position in the written list, complete attribute TLV)
+    extra_attrs: Vec<(usize, Vec<u8>)>,
+    /// further members of the certificates [0] set, written after the EE certificate
+    extra_certs: Vec<Vec<u8>>,
+    /// members of the crls [1] set (empty = field absent)
+    crls: Vec<Vec<u8>>,
 }
 
 impl Plan {
     fn base(kind: Kind) -> Plan {
         Plan { kind, ect: kind.ect(), content: default_content(kind), order: [0, 1, 2], st_gen: false, digest_null: 0, sig_alg: 0,
-               digest: DigestV::Ok, sig: SigV::Ok, sid: SidV::Ok, ee: EeV::Ok, ct: CtV::Ok, card: CardV::Ok }
+               digest: DigestV::Ok, sig: SigV::Ok, sid: SidV::Ok, ee: EeV::Ok, ct: CtV::Ok, card: CardV::Ok,
+               st_secs: T0 - 60, extra_attrs: Vec::new(), extra_certs: Vec::new(), crls: Vec::new() }
     }
     fn all_ok(&self) -> bool {
         self.digest == DigestV::Ok && self.sig == SigV::Ok && self.sid == SidV::Ok && self.ee == EeV::Ok && self.ct == CtV::Ok && self.card == CardV::Ok
@@ -313,7 +324,7 @@ fn plan_attrs(p: &Plan) -> Vec<Vec<u8>> {
         DigestV::OfOtherContent => { let mut c = p.content.clone(); c.push(0); sha256(&c) }
     };
     let ct_attr_oid = if p.ct == CtV::AttrOther { p.kind.other_ct() } else { p.ect.clone() };
-    let base = base_attrs(&ct_attr_oid, &dg, p.st_gen, T0 - 60);
+    let base = base_attrs(&ct_attr_oid, &dg, p.st_gen, p.st_secs);
     // the "other value" copies used for DupOther
     let alt = base_attrs(&[1, 2, 3, 4], &sha256(b"other"), p.st_gen, T0 - 120);
     let mut attrs: Vec<Vec<u8>> = p.order.iter().map(|&i| base[i].clone()).collect();
@@ -323,6 +334,7 @@ fn plan_attrs(p: &Plan) -> Vec<Vec<u8>> {
         CardV::DupOther(i, pos) => attrs.insert(pos, alt[i].clone()),
         CardV::Missing(i) => attrs.retain(|a| *a != base[i]),
     }
+    for (pos, a) in &p.extra_attrs { let at = (*pos).min(attrs.len()); attrs.insert(at, a.clone()) }
     attrs
 }
 
@@ -336,6 +348,8 @@ fn assemble(fx: &Fx, p: &Plan, cert: &[u8]) -> Vec<u8> {
     let key = if p.sig == SigV::OtherKey { K_OTHER } else { K_EE };
     let mut signature = fx.s.sign_raw(key, &tbs);
     if p.sig == SigV::FlipLastBit { let n = signature.len(); signature[n - 1] ^= 1 }
+    if p.sig == SigV::Short { signature.pop(); }
+    if p.sig == SigV::Empty { signature.clear() }
     let sid: Vec<u8> = match p.sid {
         SidV::Ok => fx.s.key(K_EE).ski.to_vec(),
         SidV::OtherSki => fx.s.key(K_OTHER).ski.to_vec(),
@@ -347,8 +361,8 @@ fn assemble(fx: &Fx, p: &Plan, cert: &[u8]) -> Vec<u8> {
         digest_alg_set: der::set_unsorted(&[der::alg_sha256(p.digest_null & 1 != 0)]),
         econtent_type: ect,
         econtent: p.content.clone(),
-        certificates: vec![cert.to_vec()],
-        crls: vec![],
+        certificates: { let mut c = vec![cert.to_vec()]; c.extend(p.extra_certs.iter().cloned()); c },
+        crls: p.crls.clone(),
         si_version: 3,
         sid,
         si_digest_alg: der::alg_sha256(p.digest_null & 2 != 0),
@@ -504,10 +518,15 @@ fn flush_fails(ctx: &Ctx) {
 //------------ main ------------------------------------------------------------------------
 
 fn main() {
+    if std::env::args().any(|a| a == "--observe-env") {
+        rpki_verif::engine::report::install_quiet_panic_hook();
+        for l in env_observations() { println!("{l}") }
+        return;
+    }
     let ctx = Ctx::new("C02", "exploration");
     ctx.assume("aws-lc RSA PKCS#1 v1.5 / SHA-256 / SHA-1 are correct (used by both the library and the independent signer)");
     ctx.assume("EE certificate validation itself is C01's subject; here three representative EE failures are used");
-    ctx.assume("Roa::process / Aspa::process / SignedObject::process read the wall clock: the EE certificates are valid from 2023-11-13 to 2049-12-31, the run must happen in between");
+    ctx.assume("Roa::process / Aspa::process / SignedObject::process read the wall clock: the EE certificates are valid from 2023-11-13 to 2049-12-31, the run must happen in between (interactions.time: after 2023-11-15T22:13:20Z and before 2049-12-31T23:59:59Z)");
     ctx.assume("keys are the 8 fixed pool keys");
     let fx = Fx::load();
     let thorough = ctx.tier.is_thorough();
@@ -800,6 +819,16 @@ fn main() {
         sp.sample_str(|| "kind=mft sequence (ca, T0) -> (other-ca, T0) -> (ca, after): accepted, rejected, rejected".to_string());
         sp.done(true, "4 kinds x 2 modes x all ordered pairs and triples of 4-10 (issuer, instant / callback) settings on one decoded value");
     }
+
+    //--- (4c') history on a new OS thread: predecessors leaving at every stage ---------------------------------------------
+    history_independent(&ctx, &fx, &ees, thorough);
+
+    //--- (4g) fields no stated condition mentions; validity x signing time x evaluation instant ------------------------------
+    ignored_fields(&ctx, &fx, thorough);
+    interactions_time(&ctx, &fx, thorough);
+
+    //--- (4h) the environment: TZ ------------------------------------------------------------------------------------------
+    environment_tz(&ctx);
 
     //--- (4e) BER respellings of the CMS wrapper (relaxed mode) ---------------------------------------------------------
     ber_respellings(&ctx, &fx, &ees);
@@ -1672,4 +1701,758 @@ fn scale_spaces(ctx: &Ctx, fx: &Fx, thorough: bool) {
     sp.set("aspa_provider_counts", serde_json::json!(aspa_counts));
     sp.sample_str(|| "roa with 17 prefixes, prefix number 16 replaced by 11.0.16.0/24 -> rejected".to_string());
     sp.done(true, &format!("{} ROA prefix counts x 4; {} ASPA provider counts x 2; {} manifest entry counts x 2", roa_counts.len(), aspa_counts.len(), mft_counts.len()));
+}
+
+//------------ fields no stated condition mentions --------------------------------------------------------------
+// The acceptance predicate of the property names: message digest, signature over the SET OF encoding, signer
+// identifier, the EE certificate validating under the issuer at the evaluation instant, attribute cardinality /
+// content type agreement, ROA prefix and ASPA customer coverage, the CRL callback. Every other field the decoders
+// read (sigobj.rs, roa.rs, aspa.rs, manifest.rs, and the EE certificate's fields that C01's predicate does not
+// name) is an *ignored field*: its value may not change the verdict in either direction.
+
+const Y0001: i64 = -62_135_596_800;      // 0001-01-01T00:00:00Z
+const Y1900: i64 = -2_208_988_800;       // 1900-01-01T00:00:00Z
+const Y1950: i64 = -631_152_000;         // 1950-01-01T00:00:00Z, the first UTCTime instant
+const Y9999_END: i64 = 253_402_300_799;  // 9999-12-31T23:59:59Z, the last GeneralizedTime instant
+
+fn iso(secs: i64) -> String {
+    let c = civil(secs);
+    format!("{:04}-{:02}-{:02}T{:02}:{:02}:{:02}Z", c.y, c.mo, c.d, c.h, c.mi, c.s)
+}
+
+/// UTCTime can express 1950..=2049 only.
+fn utc_expressible(secs: i64) -> bool { (Y1950..=FAR).contains(&secs) }
+
+/// An EE certificate (key K_EE, issued by K_CA) with every field free that C01's predicate does not name.
+#[derive(Clone, Debug)]
+struct EeOpt {
+    res: Res,
+    overclaim: Overclaim,
+    v: EeV,
+    /// big-endian magnitude, at most 20 octets, first bit clear
+    serial: Vec<u8>,
+    nb: i64,
+    na: i64,
+    /// DER of the Name; None = the name the library derives from the key
+    subject: Option<Vec<u8>>,
+    issuer: Option<Vec<u8>>,
+    sia: String,
+    crl: String,
+    aia: String,
+}
+
+impl EeOpt {
+    fn base(kind: Kind) -> EeOpt {
+        EeOpt { res: default_res(kind), overclaim: Overclaim::Refuse, v: EeV::Ok, serial: vec![100 + kind as u8], nb: T0 - DAY, na: FAR, subject: None, issuer: None,
+                sia: "rsync://example.net/repo/ca/obj.roa".into(), crl: "rsync://example.net/repo/ca/ca.crl".into(), aia: "rsync://example.net/repo/ca.cer".into() }
+    }
+}
+
+fn name_from_der(d: &[u8]) -> rpki::repository::x509::Name {
+    bcder::Mode::Der.decode(d, rpki::repository::x509::Name::take_from).expect("name written by the independent encoder decodes")
+}
+
+fn name_der(n: &rpki::repository::x509::Name) -> Vec<u8> { bcder::Captured::from_values(bcder::Mode::Der, n.encode_ref()).as_slice().to_vec() }
+
+/// Name of one RDN per attribute: commonName and optionally serialNumber, both PrintableString (RFC 6487 section 4.4).
+fn rdn_name(cn: &str, sn: Option<&str>) -> Vec<u8> {
+    let mut rdns = vec![der::set_unsorted(&[der::seq(&[der::oid(&[2, 5, 4, 3]), der::printable(cn)])])];
+    if let Some(sn) = sn { rdns.push(der::set_unsorted(&[der::seq(&[der::oid(&[2, 5, 4, 5]), der::printable(sn)])])) }
+    der::seq(&rdns)
+}
+
+fn ee_custom(fx: &Fx, o: &EeOpt) -> Vec<u8> {
+    use rpki::repository::cert::{KeyUsage, TbsCert};
+    use rpki::repository::x509::Serial;
+    let issuer_name = match &o.issuer { Some(d) => name_from_der(d), None => fx.s.public(K_CA).to_subject_name() };
+    let subject = o.subject.as_ref().map(|d| name_from_der(d));
+    let validity = if o.v == EeV::Expired { expired_validity() } else { Validity::new(pki::time(o.nb), pki::time(o.na)) };
+    let mut tbs = TbsCert::new(Serial::from_slice(&o.serial).expect("serial of at most 20 octets"), issuer_name, validity, subject, fx.s.public(K_EE), KeyUsage::Ee, o.overclaim);
+    tbs.set_signed_object(Some(pki::rsync(&o.sia)));
+    tbs.set_crl_uri(Some(pki::rsync(&o.crl)));
+    tbs.set_ca_issuer(Some(pki::rsync(&o.aia)));
+    tbs.set_authority_key_identifier(Some(if o.v == EeV::AkiMismatch { fx.s.ski(K_CA2) } else { fx.s.ski(K_CA) }));
+    tbs.set_v4_resources(pki::ip_res(32, &o.res.v4));
+    tbs.set_v6_resources(pki::ip_res(128, &o.res.v6));
+    tbs.set_as_resources(pki::as_res(&o.res.asn));
+    let tbs_der = bcder::Captured::from_values(bcder::Mode::Der, tbs.encode_ref()).as_slice().to_vec();
+    pki::sign_tbs(&fx.s, if o.v == EeV::WrongIssuerKey { K_CA2 } else { K_CA }, &tbs_der)
+}
+
+static EE_CACHE: Mutex<BTreeMap<String, std::sync::Arc<Vec<u8>>>> = Mutex::new(BTreeMap::new());
+
+fn ee_cached(fx: &Fx, o: &EeOpt) -> std::sync::Arc<Vec<u8>> {
+    let key = format!("{o:?}");
+    if let Some(c) = EE_CACHE.lock().unwrap().get(&key) { return c.clone() }
+    let c = std::sync::Arc::new(ee_custom(fx, o));
+    EE_CACHE.lock().unwrap().entry(key).or_insert(c).clone()
+}
+
+/// `validate_at` at an arbitrary instant (manifest and generic object only; ROA and ASPA have no timed entry point).
+fn run_at(kind: Kind, bytes: &[u8], issuer: &ResourceCert, strict: bool, t: Time) -> Verdict {
+    let b = Bytes::copy_from_slice(bytes);
+    let r = guard(|| match kind {
+        Kind::Mft => match Manifest::decode(b, strict) {
+            Err(e) => Verdict::Decode(e.to_string()),
+            Ok(o) => match o.validate_at(issuer, strict, t) { Ok(_) => Verdict::Accept, Err(e) => Verdict::Invalid(e.to_string()) } },
+        _ => match SignedObject::decode(b, strict) {
+            Err(e) => Verdict::Decode(e.to_string()),
+            Ok(o) => match o.validate_at(issuer, strict, t) { Ok(_) => Verdict::Accept, Err(e) => Verdict::Invalid(e.to_string()) } },
+    });
+    match r { Ok(v) => v, Err(p) => Verdict::Panic(p) }
+}
+
+#[derive(Clone, Debug)]
+enum EeField { Serial(Vec<u8>), Subject(Vec<u8>), Issuer(Vec<u8>), Window(i64, i64), Sia(String), Crl(String), Aia(String) }
+
+#[derive(Clone, Debug)]
+enum IgnOp {
+    /// value and form of the signing-time attribute
+    St { secs: i64, gt: bool },
+    /// binary-signing-time attribute with the signing time + delta seconds, written at this position
+    Bst { delta: i64, pos: usize },
+    /// an attribute nobody registered, written last
+    UnknownAttr,
+    /// a second member of the certificates set: 0 = the issuing CA's certificate, 1 = the EE certificate once more
+    ExtraCert(u8),
+    /// a crls [1] field holding the issuer's (empty) CRL
+    Crl,
+    Ee(EeField),
+    /// index into the content menu of the kind
+    Content(usize),
+}
+
+#[derive(Clone, Debug)]
+struct Ign {
+    /// the field (two deviations of the same family are never combined)
+    family: &'static str,
+    label: String,
+    /// well-formed by the profile: must be admitted and, all conditions holding, accepted. Otherwise the decoder may
+    /// refuse the value at decode; if it admits it, the verdict must be the condition vector's.
+    must_admit: bool,
+    op: IgnOp,
+}
+
+/// A content of a kind with an ignored content field deviating: (label, well-formed, covered content, uncovered twin).
+struct ContentVar { label: String, must_admit: bool, covered: Vec<u8>, uncovered: Option<Vec<u8>> }
+
+fn content_menu(kind: Kind) -> Vec<ContentVar> {
+    let mut v = Vec::new();
+    match kind {
+        Kind::Roa => {
+            let mk = |version: Option<u128>, asid: u128, covered: bool| {
+                let first = if covered { der::roa_addr_from(0x0a00_0000, 8, 32, Some(24)) } else { der::roa_addr_from(0x0b00_0000, 8, 32, Some(24)) };
+                der::roa_content(version, asid, Some(&[first, der::roa_addr_from(0x0a01_0200, 24, 32, None)]), Some(&[der::roa_addr_from(0x2001_0db8u128 << 96, 32, 128, Some(48))]))
+            };
+            for asid in [64496u128, 0, 1, 23456, 65535, 65536, u32::MAX as u128 - 1, u32::MAX as u128] {
+                v.push(ContentVar { label: format!("asID={asid}"), must_admit: true, covered: mk(None, asid, true), uncovered: Some(mk(None, asid, false)) });
+            }
+            v.push(ContentVar { label: "version [0] 0 written out".into(), must_admit: false, covered: mk(Some(0), 64496, true), uncovered: Some(mk(Some(0), 64496, false)) });
+        }
+        Kind::Aspa => {
+            // the EE certificate holds AS64496 only; the uncovered twin has customer AS65000
+            let lists: Vec<(String, bool, Vec<u128>)> = vec![
+                ("providers=[64497,64498]".into(), true, vec![64497, 64498]),
+                ("providers=[0]".into(), false, vec![0]),
+                ("providers=[4294967295]".into(), true, vec![u32::MAX as u128]),
+                ("providers=[0,4294967295]".into(), false, vec![0, u32::MAX as u128]),
+                ("providers=[customer-1,customer+1]".into(), true, vec![]),
+                ("providers=[1]".into(), true, vec![1]),
+                ("providers=[23456,65535,65536]".into(), true, vec![23456, 65535, 65536]),
+                ("40 providers 70000,70002,..".into(), true, (0..40).map(|i| 70_000 + 2 * i as u128).collect()),
+                ("providers=[customer]".into(), false, vec![u128::MAX]),
+                ("providers=[customer-1,customer,customer+1]".into(), false, vec![u128::MAX, u128::MAX]),
+            ];
+            for (label, must, list) in lists {
+                let mk = |customer: u128| {
+                    let l: Vec<u128> = if list.is_empty() { vec![customer - 1, customer + 1] }
+                        else if list == [u128::MAX] { vec![customer] }
+                        else if list == [u128::MAX, u128::MAX] { vec![customer - 1, customer, customer + 1] }
+                        else { list.clone() };
+                    der::aspa_content(Some(1), customer, &l)
+                };
+                v.push(ContentVar { label, must_admit: must, covered: mk(64496), uncovered: Some(mk(65000)) });
+            }
+        }
+        Kind::Mft => {
+            let entries = |n: usize| -> Vec<MftEntry> { (0..n).map(|i| MftEntry { name: format!("f{i}.roa").into_bytes(), hash_unused: 0, hash: vec![i as u8 + 1; 32] }).collect() };
+            let gt = |s: i64| der::gentime(civil(s));
+            let mk = |number: &[u8], this: Vec<u8>, next: Vec<u8>, n: usize| der::manifest_content(None, number, this, next, der::OID_SHA256, &entries(n));
+            v.push(ContentVar { label: "number=1 thisUpdate=eval-1h nextUpdate=eval+1d".into(), must_admit: true, covered: default_content(Kind::Mft), uncovered: None });
+            let max20 = { let mut b = vec![0x7fu8]; b.extend([0xff; 19]); b };
+            for (label, must, num) in [("number=0", true, vec![0u8]), ("number=127", true, vec![127]), ("number=128", true, vec![128]), ("number=2^64", true, vec![1, 0, 0, 0, 0, 0, 0, 0, 0]),
+                                       ("number=2^159-1 (20 octets)", true, max20.clone()), ("number=2^160 (21 octets)", false, { let mut b = vec![1u8]; b.extend([0; 20]); b })] {
+                v.push(ContentVar { label: label.into(), must_admit: must, covered: mk(&num, gt(T0 - 3600), gt(T0 + DAY), 2), uncovered: None });
+            }
+            for (label, this, next) in [("stale: thisUpdate=eval-2d nextUpdate=eval-1d", T0 - 2 * DAY, T0 - DAY), ("nextUpdate=eval-1s", T0 - 3600, T0 - 1), ("nextUpdate=eval", T0 - 3600, T0),
+                                        ("not yet current: thisUpdate=eval+1d nextUpdate=eval+2d", T0 + DAY, T0 + 2 * DAY), ("thisUpdate=eval+1s", T0 + 1, T0 + DAY), ("thisUpdate=nextUpdate=eval", T0, T0),
+                                        ("thisUpdate=1950-01-01 nextUpdate=9999-12-31T23:59:59", Y1950, Y9999_END), ("thisUpdate=0001-01-01 nextUpdate=1949-12-31T23:59:59", Y0001, Y1950 - 1),
+                                        ("thisUpdate=2050-01-01 nextUpdate=9999-12-31T23:59:59", FAR + 1, Y9999_END), ("thisUpdate before / nextUpdate after the EE certificate's window", T0 - 2 * DAY, FAR + 1)] {
+                v.push(ContentVar { label: label.into(), must_admit: true, covered: mk(&[1], gt(this), gt(next), 2), uncovered: None });
+            }
+            v.push(ContentVar { label: "thisUpdate / nextUpdate as UTCTime".into(), must_admit: false, covered: mk(&[1], der::utctime(civil(T0 - 3600)), der::utctime(civil(T0 + DAY)), 2), uncovered: None });
+            v.push(ContentVar { label: "empty file list".into(), must_admit: true, covered: mk(&[1], gt(T0 - 3600), gt(T0 + DAY), 0), uncovered: None });
+            v.push(ContentVar { label: "version [0] 0 written out".into(), must_admit: false,
+                covered: der::manifest_content(Some(0), &[1], gt(T0 - 3600), gt(T0 + DAY), der::OID_SHA256, &entries(2)), uncovered: None });
+        }
+        Kind::Gen => {
+            v.push(ContentVar { label: "default content".into(), must_admit: true, covered: default_content(Kind::Gen), uncovered: None });
+            v.push(ContentVar { label: "empty content".into(), must_admit: true, covered: Vec::new(), uncovered: None });
+            v.push(ContentVar { label: "content = a ROA eContent".into(), must_admit: true, covered: default_content(Kind::Roa), uncovered: None });
+            v.push(ContentVar { label: "content of 1000 octets".into(), must_admit: true, covered: (0..1000).map(|i| (i * 11 + 7) as u8).collect(), uncovered: None });
+        }
+    }
+    v
+}
+
+/// The instants of the signing-time domain, relative to the base EE certificate's window [T0-1d, 2049-12-31T23:59:59Z]
+/// and the evaluation instant T0 (ROA / ASPA: the wall clock, which lies somewhere on the yearly ladder).
+fn st_instants() -> Vec<(String, i64)> {
+    let nb = T0 - DAY;
+    let mut v: Vec<(String, i64)> = vec![
+        ("0001-01-01".into(), Y0001), ("1900-01-01".into(), Y1900), ("last second of 1949".into(), Y1950 - 1), ("first UTCTime instant".into(), Y1950),
+        ("epoch-1s".into(), -1), ("epoch".into(), 0),
+        ("EE.notBefore-1s".into(), nb - 1), ("EE.notBefore".into(), nb), ("EE.notBefore+1s".into(), nb + 1),
+        ("eval-1s".into(), T0 - 1), ("eval".into(), T0), ("eval+1s".into(), T0 + 1),
+        ("leap day".into(), 1_709_208_000),
+    ];
+    for (y, s) in [(2025, 1_735_689_600i64), (2026, 1_767_225_600), (2027, 1_798_761_600), (2028, 1_830_297_600), (2029, 1_861_920_000), (2030, 1_893_456_000)] { v.push((format!("{y}-01-01"), s)) }
+    v.extend([("i32::MAX".to_string(), i32::MAX as i64), ("i32::MAX+1".into(), i32::MAX as i64 + 1),
+        ("EE.notAfter-1s".into(), FAR - 1), ("EE.notAfter = last UTCTime instant".into(), FAR), ("EE.notAfter+1s = 2050-01-01".into(), FAR + 1),
+        ("u32::MAX".into(), u32::MAX as i64), ("u32::MAX+1".into(), u32::MAX as i64 + 1), ("last GeneralizedTime instant".into(), Y9999_END)]);
+    v
+}
+
+fn ign_menu(fx: &Fx, kind: Kind, contents: &[ContentVar]) -> Vec<Ign> {
+    let mut m = Vec::new();
+    for (label, secs) in st_instants() {
+        for gt in [false, true] {
+            if !gt && !utc_expressible(secs) { continue }
+            m.push(Ign { family: "signing-time", label: format!("{} ({label}) as {}", iso(secs), if gt { "GeneralizedTime" } else { "UTCTime" }), must_admit: true, op: IgnOp::St { secs, gt } });
+        }
+    }
+    for (label, delta, pos) in [("agreeing, written last", 0i64, 3usize), ("one hour off, written last", 3600, 3), ("agreeing, written first", 0, 0)] {
+        m.push(Ign { family: "binary-signing-time", label: label.into(), must_admit: false, op: IgnOp::Bst { delta, pos } });
+    }
+    m.push(Ign { family: "unknown-attribute", label: "1.3.6.1.4.1.99999.3.1 written last".into(), must_admit: false, op: IgnOp::UnknownAttr });
+    m.push(Ign { family: "certificates", label: "the issuing CA's certificate as a second member".into(), must_admit: false, op: IgnOp::ExtraCert(0) });
+    m.push(Ign { family: "certificates", label: "the EE certificate twice".into(), must_admit: false, op: IgnOp::ExtraCert(1) });
+    m.push(Ign { family: "crls", label: "crls [1] with the issuer's CRL".into(), must_admit: false, op: IgnOp::Crl });
+    // the EE certificate
+    let max20 = { let mut b = vec![0x7fu8]; b.extend([0xff; 19]); b };
+    for (label, must, s) in [("1", true, vec![1u8]), ("127", true, vec![127]), ("128", true, vec![128]), ("2^64-1", true, vec![0xff; 8]), ("2^64", true, vec![1, 0, 0, 0, 0, 0, 0, 0, 0]), ("2^159-1 (20 octets)", true, max20), ("0", false, vec![0])] {
+        m.push(Ign { family: "ee.serial", label: label.into(), must_admit: must, op: IgnOp::Ee(EeField::Serial(s)) });
+    }
+    let ca_name = name_der(&fx.s.public(K_CA).to_subject_name());
+    let other_name = name_der(&fx.s.public(K_OTHER).to_subject_name());
+    let ee_name = name_der(&fx.s.public(K_EE).to_subject_name());
+    for (label, d) in [("CN=x", rdn_name("x", None)), ("CN of 64 characters", rdn_name(&"n".repeat(64), None)), ("CN=one-off-ee + serialNumber=42", rdn_name("one-off-ee", Some("42"))),
+                       ("the issuer's own name (subject = issuer)", ca_name.clone()), ("the name derived from another key", other_name.clone())] {
+        m.push(Ign { family: "ee.subject", label: label.into(), must_admit: true, op: IgnOp::Ee(EeField::Subject(d)) });
+    }
+    for (label, d) in [("CN=some-ca (not the issuer certificate's subject)", rdn_name("some-ca", None)), ("the issuer's CN + serialNumber=7", { let n = der::parse_one(&ca_name, false).unwrap();
+                           let cn = n.children[0].children[0].children[1].content(&ca_name).to_vec(); rdn_name(std::str::from_utf8(&cn).unwrap(), Some("7")) }),
+                       ("the name derived from another key", other_name), ("the EE's own name (issuer = subject)", ee_name)] {
+        m.push(Ign { family: "ee.issuer", label: label.into(), must_admit: true, op: IgnOp::Ee(EeField::Issuer(d)) });
+    }
+    // windows containing the evaluation instant: T0 for the timed entry points, the wall clock (2023-11-15 .. 2049) for process()
+    let timed = matches!(kind, Kind::Mft | Kind::Gen);
+    let mut windows = vec![("1950-01-01 .. 9999-12-31T23:59:59 (far wider than the issuer's)", Y1950, Y9999_END), ("issuer.notBefore .. 9999-12-31T23:59:59", T0 - DAY, Y9999_END),
+                           ("1950-01-01 .. 2049-12-31T23:59:59", Y1950, FAR), ("eval .. 2049-12-31T23:59:59 (starts after the issuer's)", T0, FAR), ("issuer.notBefore .. 2050-01-01", T0 - DAY, FAR + 1)];
+    if timed { windows.extend([("notBefore = notAfter = eval", T0, T0), ("eval-1s .. eval+1s", T0 - 1, T0 + 1), ("1950-01-01 .. eval", Y1950, T0), ("issuer's own window", T0 - DAY, T0 + 365 * DAY)]) }
+    for (label, nb, na) in windows { m.push(Ign { family: "ee.validity", label: label.into(), must_admit: true, op: IgnOp::Ee(EeField::Window(nb, na)) }) }
+    let long = format!("rsync://long.example/module/{}/x.bin", "d".repeat(300));
+    for (fam, mkf, uris) in [("ee.sia", EeField::Sia as fn(String) -> EeField, ["rsync://other.example/module/another.bin".to_string(), long.clone(), "rsync://example.net/repo/ca/".to_string()]),
+                             ("ee.crldp", EeField::Crl as fn(String) -> EeField, ["rsync://other.example/module/other.crl".to_string(), long.clone(), "rsync://example.net/repo/ca/obj.roa".to_string()]),
+                             ("ee.aia", EeField::Aia as fn(String) -> EeField, ["rsync://other.example/module/other.cer".to_string(), long.clone(), "rsync://example.net/repo/ca/obj.roa".to_string()])] {
+        for u in uris { m.push(Ign { family: fam, label: trunc(&u, 60), must_admit: true, op: IgnOp::Ee(mkf(u)) }) }
+    }
+    for (i, c) in contents.iter().enumerate().skip(1) {
+        m.push(Ign { family: "content", label: c.label.clone(), must_admit: c.must_admit, op: IgnOp::Content(i) });
+    }
+    m
+}
+
+#[derive(Clone, Copy, Debug)]
+enum Cond { Sat, V(Viol), Uncovered, CallbackErr }
+
+fn cond_menu(kind: Kind) -> Vec<Cond> {
+    let mut v = vec![Cond::Sat];
+    v.extend([Viol::D(DigestV::FlipLast), Viol::D(DigestV::OfOtherContent), Viol::S(SigV::OtherKey), Viol::S(SigV::FlipLastBit), Viol::S(SigV::OverImplicitTag), Viol::I(SidV::OtherSki),
+              Viol::E(EeV::WrongIssuerKey), Viol::E(EeV::Expired), Viol::E(EeV::AkiMismatch), Viol::C(CtV::AttrOther), Viol::C(CtV::EncapOther), Viol::K(CardV::Missing(1)), Viol::K(CardV::DupSame(0, 3))].map(Cond::V));
+    if matches!(kind, Kind::Roa | Kind::Aspa) { v.push(Cond::Uncovered) }
+    if !matches!(kind, Kind::Mft) { v.push(Cond::CallbackErr) }
+    v
+}
+
+fn cond_name(c: Cond) -> String {
+    match c { Cond::Sat => "none".into(), Cond::V(v) => { let mut p = Plan::base(Kind::Gen); v.apply(&mut p); p.violated().join(" ") }, Cond::Uncovered => "coverage".into(), Cond::CallbackErr => "crl-callback:Err".into() }
+}
+
+fn issuer_crl(fx: &Fx) -> Vec<u8> {
+    let tbs = der::seq(&[der::int_u(1), der::alg_sha256_with_rsa(), name_der(&fx.s.public(K_CA).to_subject_name()), der::utctime(civil(T0 - 3600)), der::utctime(civil(T0 + DAY)),
+        der::ctx(0, true, &der::seq(&[der::seq(&[der::oid(&[2, 5, 29, 35]), der::octets(&der::seq(&[der::ctx(0, false, &fx.s.key(K_CA).ski)]))]), der::seq(&[der::oid(&[2, 5, 29, 20]), der::octets(&der::int_u(1))])]))]);
+    pki::sign_tbs(&fx.s, K_CA, &tbs)
+}
+
+/// Builds the object of (kind, ignored-field deviations, condition): (bytes, entry, rendering of the EE window).
+fn ign_build(fx: &Fx, kind: Kind, igns: &[&Ign], cond: Cond, contents: &[ContentVar], ca_der: &[u8], crl_der: &[u8]) -> (Vec<u8>, Entry) {
+    let mut p = Plan::base(kind);
+    let mut ee = EeOpt::base(kind);
+    let mut ci = 0usize;
+    let mut ee_twice = false;
+    for g in igns {
+        match &g.op {
+            IgnOp::St { secs, gt } => { p.st_secs = *secs; p.st_gen = *gt }
+            IgnOp::Bst { .. } | IgnOp::UnknownAttr => {}
+            IgnOp::ExtraCert(0) => p.extra_certs.push(ca_der.to_vec()),
+            IgnOp::ExtraCert(_) => ee_twice = true,
+            IgnOp::Crl => p.crls.push(crl_der.to_vec()),
+            IgnOp::Ee(f) => match f.clone() {
+                EeField::Serial(s) => ee.serial = s, EeField::Subject(d) => ee.subject = Some(d), EeField::Issuer(d) => ee.issuer = Some(d),
+                EeField::Window(a, b) => { ee.nb = a; ee.na = b } EeField::Sia(u) => ee.sia = u, EeField::Crl(u) => ee.crl = u, EeField::Aia(u) => ee.aia = u,
+            },
+            IgnOp::Content(i) => ci = *i,
+        }
+    }
+    // attributes that depend on the signing time come after it is settled
+    for g in igns {
+        match &g.op {
+            IgnOp::Bst { delta, pos } => p.extra_attrs.push((*pos, der::attr_binary_signing_time((p.st_secs + delta).max(0) as u64))),
+            IgnOp::UnknownAttr => p.extra_attrs.push((usize::MAX, der::attribute(&[1, 3, 6, 1, 4, 1, 99999, 3, 1], &[der::octets(b"ignored")]))),
+            _ => {}
+        }
+    }
+    let mut entry = match kind { Kind::Mft | Kind::Gen => Entry::At, _ => Entry::Process(true) };
+    p.content = contents[ci].covered.clone();
+    match cond {
+        Cond::Sat => {}
+        Cond::V(v) => { v.apply(&mut p); ee.v = p.ee }
+        Cond::Uncovered => p.content = contents[ci].uncovered.clone().expect("kinds with a coverage condition have uncovered twins"),
+        Cond::CallbackErr => entry = Entry::Process(false),
+    }
+    let cert = ee_cached(fx, &ee);
+    if ee_twice { p.extra_certs.push(cert.to_vec()) }
+    (assemble(fx, &p, &cert), entry)
+}
+
+fn ignored_fields(ctx: &Ctx, fx: &Fx, thorough: bool) {
+    let sp = ctx.space("ignored.fields",
+        "every field of a signed object and of its EE certificate that the acceptance predicate does not name, swept over a boundary-dense domain, one deviation at a time (and all pairs of deviations of two different fields: quick over 2 representatives per field, thorough over the whole menu): signing-time value (30 instants from 0001 to 9999 placed before / at / after the EE certificate's notBefore and notAfter, the evaluation instant, the UTCTime / GeneralizedTime switch, 2^31 and 2^32 seconds, a yearly ladder that the wall clock of process() lies on) x UTCTime / GeneralizedTime; binary-signing-time (agreeing / disagreeing / first), an unknown attribute, a second certificate, a crls field (the decoder may refuse these; counted); EE serial (1 .. 2^159-1, 0), subject name (5), issuer name (4, none equal to the issuer certificate's subject), validity far wider / narrower than the issuer's with the evaluation instant inside, SIA / CRLDP / AIA URIs (3 each); ROA asID (8) and written-out version, ASPA provider lists (8; customer among the providers: decoder may refuse), manifest number (0 .. 2^159-1; 2^160), thisUpdate / nextUpdate before / at / after the evaluation instant and the EE window (stale, not yet current, 1950, 9999), UTCTime form, empty file list, generic content (4). Each crossed with {all conditions satisfied; 13 single violations (digest 2, signature 3, sid, EE certificate 3, content type 2, cardinality 2); ROA / ASPA: coverage violated; generic / ROA / ASPA: CRL callback Err} x strict / relaxed. Oracle: all satisfied and value well-formed -> accepted; all satisfied and the decoder may refuse the value -> not rejected at validation; any violation -> rejected; non-trivial = distinct object encodings with a deviating ignored field");
+    let ca_der = pki::build_cert_der(&fx.s, &Spec::issued(pki::Kind::Ca, K_CA, K_TA, fx.s.ski(K_TA), Res::all(), Overclaim::Refuse));
+    let crl_der = issuer_crl(fx);
+    let t = Tally::new();
+    let by_family: Mutex<BTreeMap<String, (u64, u64, u64)>> = Mutex::new(BTreeMap::new());
+    let mut total_single = 0usize;
+    let mut total_pairs = 0usize;
+    for kind in KINDS {
+        let contents = content_menu(kind);
+        let menu = ign_menu(fx, kind, &contents);
+        let conds = cond_menu(kind);
+        // deviation sets: the base, every single deviation, pairs of two different fields
+        let mut sets: Vec<Vec<usize>> = vec![vec![]];
+        for i in 0..menu.len() { sets.push(vec![i]) }
+        total_single += menu.len();
+        let reps: Vec<usize> = if thorough { (0..menu.len()).collect() } else {
+            // two representatives per field: the first and the last of its menu entries; for the signing time those around the window ends
+            let mut r = Vec::new();
+            let fams: BTreeSet<&str> = menu.iter().map(|g| g.family).collect();
+            for f in fams {
+                let idx: Vec<usize> = (0..menu.len()).filter(|&i| menu[i].family == f).collect();
+                if f == "signing-time" {
+                    for i in &idx { if let IgnOp::St { secs, gt } = menu[*i].op { if (secs == T0 - DAY - 1 && !gt) || (secs == FAR + 1) || (secs == T0 + 1 && gt) { r.push(*i) } } }
+                } else { r.push(idx[0]); if idx.len() > 1 { r.push(*idx.last().unwrap()) } }
+            }
+            r
+        };
+        let pair_conds: Vec<usize> = if thorough { (0..conds.len()).collect() } else { (0..conds.len()).filter(|&c| matches!(conds[c], Cond::Sat | Cond::V(Viol::D(DigestV::FlipLast)) | Cond::V(Viol::S(SigV::OtherKey)) | Cond::V(Viol::E(EeV::Expired)) | Cond::Uncovered | Cond::CallbackErr)).collect() };
+        let n_single_sets = sets.len();
+        for (x, &a) in reps.iter().enumerate() { for &b in reps.iter().skip(x + 1) { if menu[a].family != menu[b].family { sets.push(vec![a, b]) } } }
+        total_pairs += sets.len() - n_single_sets;
+        let mut jobs: Vec<(usize, usize)> = Vec::new();
+        for si in 0..sets.len() { if si < n_single_sets { for c in 0..conds.len() { jobs.push((si, c)) } } else { for &c in &pair_conds { jobs.push((si, c)) } } }
+        jobs.par_iter().for_each(|&(si, c)| {
+            let igns: Vec<&Ign> = sets[si].iter().map(|&i| &menu[i]).collect();
+            let cond = conds[c];
+            let must = igns.iter().all(|g| g.must_admit);
+            let built = guard(|| ign_build(fx, kind, &igns, cond, &contents, &ca_der, &crl_der));
+            let describe = |strict: bool, entry: Entry| format!("kind={} strict={strict} entry={} ignored-fields=[{}] violated=[{}] (EE certificate valid {}..{} unless stated, evaluation at {})", kind.name(),
+                match entry { Entry::At => "validate_at", Entry::Process(_) => "process" },
+                igns.iter().map(|g| format!("{}: {}", g.family, g.label)).collect::<Vec<_>>().join("; "), cond_name(cond), iso(T0 - DAY), iso(FAR),
+                match entry { Entry::At => iso(T0), Entry::Process(_) => "the wall clock".into() });
+            let (bytes, entry) = match built { Ok(x) => x, Err(pn) => { fail("C02.no_panic", describe(true, Entry::At), format!("while building the object: {pn}")); return } };
+            if !igns.is_empty() { t.seen(&bytes) }
+            for strict in [true, false] {
+                let (v, _) = run(fx, kind, &bytes, &fx.ca, strict, entry);
+                sp.eval();
+                let sat = matches!(cond, Cond::Sat);
+                let class = match (&v, sat, must) { (Verdict::Decode(_), true, false) => "not-admitted-at-decode", _ => v.class() };
+                t.add(class);
+                if sat && !igns.is_empty() {
+                    let mut g = by_family.lock().unwrap();
+                    for ig in &igns { let e = g.entry(ig.family.to_string()).or_insert((0, 0, 0)); match &v { Verdict::Accept => e.0 += 1, Verdict::Decode(_) => e.1 += 1, _ => e.2 += 1 } }
+                }
+                match &v {
+                    Verdict::Panic(pn) => fail("C02.no_panic", describe(strict, entry), pn.clone()),
+                    Verdict::Accept if !sat => fail("C02.ignored.reject", describe(strict, entry), "a stated condition is violated but the object was accepted"),
+                    Verdict::Invalid(e) if sat => fail("C02.ignored.accept", describe(strict, entry), format!("every stated condition holds and only fields the property does not mention deviate, yet validation failed: {}", trunc(e, 160))),
+                    Verdict::Decode(e) if sat && must => fail("C02.ignored.accept", describe(strict, entry), format!("every stated condition holds and only fields the property does not mention deviate (well-formed values), yet the object does not decode: {}", trunc(e, 160))),
+                    _ => {}
+                }
+            }
+        });
+    }
+    t.flush(&sp);
+    let fam = by_family.into_inner().unwrap();
+    sp.set("all_satisfied_per_field_accepted_refused_at_decode_rejected", serde_json::json!(fam.iter().map(|(k, (a, d, r))| format!("{k}: {a} accepted, {d} refused at decode, {r} rejected at validation")).collect::<Vec<_>>()));
+    sp.set("single_deviations", serde_json::json!(total_single));
+    sp.set("pairs_of_deviations", serde_json::json!(total_pairs));
+    sp.sample_str(|| format!("kind=roa ignored-fields=[signing-time: {} as GeneralizedTime] violated=[] -> accepted; with violated=[digest:FlipLast] -> rejected", iso(FAR + 1)));
+    sp.sample_str(|| "kind=mft ignored-fields=[content: stale: thisUpdate=eval-2d nextUpdate=eval-1d] violated=[] -> accepted (staleness is not a stated condition of validate_at)".to_string());
+    sp.done(true, &format!("4 kinds x (1 + {} single deviations) x 14-16 conditions x 2 modes; {} pairs of deviations of different fields x {} conditions x 2 modes", total_single, total_pairs, if thorough { "all" } else { "4-6" }));
+}
+
+//------------ validity x signing time x evaluation instant ------------------------------------------------------------
+
+fn interactions_time(ctx: &Ctx, fx: &Fx, thorough: bool) {
+    let sp = ctx.space("interactions.time",
+        "four independent time dimensions over one 5-point domain D = {eval0-1d, eval0-1s, eval0, eval0+1s, eval0+1d} (thorough also D' = {1950-01-01, eval0-1s, eval0, eval0+1s, 2049-12-31T23:59:59, 2050-01-01, 9999-12-31T23:59:59}): window of the issuing CA (all 15 pairs a <= b of D; the CA certificate is validated at its own notBefore), window of the EE certificate (15), signing time (5 x UTCTime / GeneralizedTime), evaluation instant (5), for manifest and generic object through validate_at, strict and relaxed: accepted <=> EE.notBefore <= evaluation instant <= EE.notAfter - the issuer's window and the signing time are not consulted. ROA, ASPA and generic object through process() (wall clock, assumed inside 2023-11-16 .. 2049): EE windows {15 over D (expired), [a, 2049-12-31T23:59:59] and [a, 9999-12-31T23:59:59] for a in D (current), two future windows} x 15 CA windows x 10 signing times: accepted <=> current; non-trivial = cases where the signing time lies outside the EE window, the EE window is not nested in the CA's, or the evaluation instant lies outside the CA's window");
+    let ta = pki::valid_ta(&fx.s, K_TA, Res::all());
+    let mut domains: Vec<(&str, Vec<i64>)> = vec![("D", vec![T0 - DAY, T0 - 1, T0, T0 + 1, T0 + DAY])];
+    if thorough { domains.push(("D'", vec![Y1950, T0 - 1, T0, T0 + 1, FAR, FAR + 1, Y9999_END])) }
+    let t = Tally::new();
+    let nt = Mutex::new(0u64);
+    let mut bound = Vec::new();
+    for (dname, d) in &domains {
+        let windows: Vec<(i64, i64)> = d.iter().enumerate().flat_map(|(i, &a)| d[i..].iter().map(move |&b| (a, b))).collect();
+        let sts: Vec<(i64, bool)> = d.iter().flat_map(|&s| [false, true].into_iter().filter(move |g| *g || utc_expressible(s)).map(move |g| (s, g))).collect();
+        let cas: Vec<ResourceCert> = windows.par_iter().map(|&(a, b)| {
+            let mut spec = Spec::issued(pki::Kind::Ca, K_CA, K_TA, ta.subject_key_identifier(), Res::all(), Overclaim::Refuse);
+            spec.validity = Validity::new(pki::time(a), pki::time(b));
+            pki::build_cert(&fx.s, &spec).validate_ca_at(&ta, true, pki::time(a)).expect("CA certificate validates at its own notBefore")
+        }).collect();
+        // (a) timed entry points
+        let mut objs: Vec<(Kind, usize, usize)> = Vec::new();
+        for k in [Kind::Mft, Kind::Gen] { for w in 0..windows.len() { for s in 0..sts.len() { objs.push((k, w, s)) } } }
+        objs.par_iter().for_each(|&(k, w, s)| {
+            let (nb, na) = windows[w];
+            let mut ee = EeOpt::base(k); ee.nb = nb; ee.na = na; ee.serial = vec![7, w as u8];
+            let mut p = Plan::base(k); p.st_secs = sts[s].0; p.st_gen = sts[s].1;
+            let bytes = assemble(fx, &p, &ee_cached(fx, &ee));
+            let (mut n_nt, mut local): (u64, BTreeMap<&'static str, u64>) = (0, BTreeMap::new());
+            for (c, &(ca_nb, ca_na)) in windows.iter().enumerate() { for &e in d.iter() { for strict in [true, false] {
+                let v = run_at(k, &bytes, &cas[c], strict, pki::time(e));
+                sp.eval(); *local.entry(v.class()).or_insert(0) += 1;
+                let want = nb <= e && e <= na;
+                if sts[s].0 < nb || sts[s].0 > na || nb < ca_nb || na > ca_na || e < ca_nb || e > ca_na { n_nt += 1 }
+                expect(ctx, "C02.interactions.time.accept", "C02.interactions.time.reject", want, &v,
+                    || format!("kind={} strict={strict} validate_at({}) EE valid {}..{} signing-time={} as {} issuing CA valid {}..{}", k.name(), iso(e), iso(nb), iso(na), iso(sts[s].0), if sts[s].1 { "GeneralizedTime" } else { "UTCTime" }, iso(ca_nb), iso(ca_na)));
+            }}}
+            *nt.lock().unwrap() += n_nt;
+            let mut g = t.oc.lock().unwrap(); for (k, n) in local { *g.entry(k).or_insert(0) += n }
+        });
+        // (b) process(): the wall clock is the evaluation instant
+        let mut ee_windows: Vec<(i64, i64)> = windows.clone();
+        for &a in d.iter().filter(|&&a| a <= T0 + DAY) { ee_windows.push((a, FAR)); ee_windows.push((a, Y9999_END)) }
+        ee_windows.extend([(FAR, Y9999_END), (FAR + 1, Y9999_END)]);
+        ee_windows.sort(); ee_windows.dedup();
+        // with the wall clock after 2023-11-15T22:13:20Z and before 2049-12-31T23:59:59Z: current <=> starts by the former and ends at or after the latter
+        let ee_windows: Vec<(i64, i64, bool)> = ee_windows.into_iter().map(|(a, b)| (a, b, a <= T0 + DAY && b >= FAR)).collect();
+        let mut objs: Vec<(Kind, bool, usize, usize)> = Vec::new();
+        for (k, gen_process) in [(Kind::Roa, false), (Kind::Aspa, false), (Kind::Gen, true)] { for w in 0..ee_windows.len() { for s in 0..sts.len() { objs.push((k, gen_process, w, s)) } } }
+        objs.par_iter().for_each(|&(k, _, w, s)| {
+            let (nb, na, current) = ee_windows[w];
+            let mut ee = EeOpt::base(k); ee.nb = nb; ee.na = na; ee.serial = vec![8, w as u8];
+            let mut p = Plan::base(k); p.st_secs = sts[s].0; p.st_gen = sts[s].1;
+            let bytes = assemble(fx, &p, &ee_cached(fx, &ee));
+            let (mut n_nt, mut local): (u64, BTreeMap<&'static str, u64>) = (0, BTreeMap::new());
+            for (c, &(ca_nb, ca_na)) in windows.iter().enumerate() {
+                let (v, _) = run(fx, k, &bytes, &cas[c], true, Entry::Process(true));
+                sp.eval(); *local.entry(v.class()).or_insert(0) += 1;
+                if sts[s].0 < nb || sts[s].0 > na || nb < ca_nb || na > ca_na { n_nt += 1 }
+                expect(ctx, "C02.interactions.time.accept", "C02.interactions.time.reject", current, &v,
+                    || format!("kind={} strict=true process() at the wall clock, EE valid {}..{} signing-time={} as {} issuing CA valid {}..{}", k.name(), iso(nb), iso(na), iso(sts[s].0), if sts[s].1 { "GeneralizedTime" } else { "UTCTime" }, iso(ca_nb), iso(ca_na)));
+            }
+            *nt.lock().unwrap() += n_nt;
+            let mut g = t.oc.lock().unwrap(); for (k, n) in local { *g.entry(k).or_insert(0) += n }
+        });
+        bound.push(format!("{dname}: {} CA windows x {} EE windows x {} signing times x {} instants x 2 kinds x 2 modes + {} EE windows x {} CA windows x {} signing times x 3 kinds through process()", windows.len(), windows.len(), sts.len(), d.len(), ee_windows.len(), windows.len(), sts.len()));
+    }
+    sp.merge_outcomes(&t.oc.lock().unwrap());
+    sp.nontrivial(*nt.lock().unwrap());
+    sp.sample_str(|| format!("kind=generic validate_at({}) EE valid {}..{} signing-time={} as UTCTime issuing CA valid {}..{} -> accepted", iso(T0), iso(T0), iso(T0 + 1), iso(T0 - DAY), iso(T0 + 1), iso(T0 + DAY)));
+    sp.done(true, &bound.join("; "));
+}
+
+//------------ history: what happened before on the thread must not matter -------------------------------------------------
+
+#[derive(Clone)]
+struct Op {
+    name: String,
+    kind: Kind,
+    bytes: Vec<u8>,
+    /// 0 = the CA, 1 = another CA (other key), 2 = the CA's key holding 11.0.0.0/8 and AS1 only
+    issuer: usize,
+    strict: bool,
+    entry: Entry,
+    cb_panics: bool,
+    /// evaluation instant of the timed entry points
+    at: i64,
+}
+
+/// Everything observable about one decode + validation, as a string.
+fn observe(issuers: &[ResourceCert], op: &Op) -> String {
+    use rpki::repository::cert::Cert;
+    let issuer = &issuers[op.issuer];
+    let b = Bytes::copy_from_slice(&op.bytes);
+    let cb_ok = !matches!(op.entry, Entry::Process(false));
+    let (panics, strict) = (op.cb_panics, op.strict);
+    let r = guard(|| {
+        let cb = |_: &Cert| -> Result<(), ValidationError> {
+            if panics { panic!("the CRL callback panics") }
+            if cb_ok { Ok(()) } else { Err(VerificationError::new("revoked (callback)").into()) }
+        };
+        let res = |rc: &ResourceCert| format!("v4={} v6={} as={} ee-serial={} ee-window={}..{}", rc.v4_resources().as_v4(), rc.v6_resources().as_v6(), rc.as_resources(), rc.as_cert().serial_number(),
+            rc.as_cert().validity().not_before().timestamp(), rc.as_cert().validity().not_after().timestamp());
+        match op.kind {
+            Kind::Roa => match Roa::decode(b, strict) {
+                Err(e) => format!("decode error: {e}"),
+                Ok(o) => {
+                    let pre = format!("asid={} v4-prefixes={} v6-prefixes={}", o.content().as_id(), o.content().v4_addrs().iter().count(), o.content().v6_addrs().iter().count());
+                    match o.process(issuer, strict, cb) { Ok((rc, att)) => format!("accepted {pre} {} origins={}", res(&rc), att.iter_origins().count()), Err(e) => format!("{pre} rejected: {e}") }
+                }
+            },
+            Kind::Aspa => match Aspa::decode(b, strict) {
+                Err(e) => format!("decode error: {e}"),
+                Ok(o) => {
+                    let pre = format!("customer={} providers={}", o.content().customer_as(), o.content().provider_as_set().iter().map(|a| a.to_string()).collect::<Vec<_>>().join(","));
+                    match o.process(issuer, strict, cb) { Ok((rc, att)) => format!("accepted {pre} {} customer-after={}", res(&rc), att.customer_as()), Err(e) => format!("{pre} rejected: {e}") }
+                }
+            },
+            Kind::Mft => match Manifest::decode(b, strict) {
+                Err(e) => format!("decode error: {e}"),
+                Ok(o) => {
+                    let pre = format!("number={} this={} next={} entries={}", o.content().manifest_number(), o.content().this_update().timestamp(), o.content().next_update().timestamp(), o.content().len());
+                    match o.validate_at(issuer, strict, pki::time(op.at)) { Ok((rc, c)) => format!("accepted {pre} {} files={}", res(&rc), c.iter().count()), Err(e) => format!("{pre} rejected: {e}") }
+                }
+            },
+            Kind::Gen => match SignedObject::decode(b, strict) {
+                Err(e) => format!("decode error: {e}"),
+                Ok(o) => {
+                    let pre = format!("content-type={} content={}B signing-time={}", o.content_type(), o.content().len(), o.signing_time().timestamp());
+                    match op.entry {
+                        Entry::At => match o.validate_at(issuer, strict, pki::time(op.at)) { Ok(rc) => format!("accepted {pre} {}", res(&rc)), Err(e) => format!("{pre} rejected: {e}") },
+                        Entry::Process(_) => match o.process(issuer, strict, cb) { Ok((rc, c)) => format!("accepted {pre} {} content-sha256={}", res(&rc), hex(&sha256(&c)[..8])), Err(e) => format!("{pre} rejected: {e}") },
+                    }
+                }
+            },
+        }
+    });
+    match r { Ok(s) => s, Err(p) => p }
+}
+
+fn hist_issuers(fx: &Fx) -> Vec<ResourceCert> {
+    let ta = pki::valid_ta(&fx.s, K_TA, Res::all());
+    vec![fx.ca.clone(), pki::valid_ca(&fx.s, &ta, K_TA, K_CA2, Res::all()),
+         pki::valid_ca(&fx.s, &ta, K_TA, K_CA, Res { v4: Claim::Blocks(vec![(0x0b00_0000, 0x0bff_ffff)]), v6: Claim::Missing, asn: Claim::Blocks(vec![(1, 1)]) })]
+}
+
+/// (subjects, further predecessors). The subjects are predecessors too.
+fn hist_ops(fx: &Fx, ees: &BTreeMap<(Kind, EeV), Vec<u8>>) -> (Vec<Op>, Vec<Op>) {
+    let entry_of = |k: Kind| match k { Kind::Mft | Kind::Gen => Entry::At, _ => Entry::Process(true) };
+    let op = |name: String, k: Kind, p: &Plan| Op { name, kind: k, bytes: assemble(fx, p, &ees[&(p.kind, p.ee)]), issuer: 0, strict: true, entry: entry_of(k), cb_panics: false, at: T0 };
+    let with = |k: Kind, v: Viol| { let mut p = Plan::base(k); v.apply(&mut p); p };
+    let long_attrs = |extra: usize| { let mut p = Plan::base(Kind::Gen); let mut arcs = vec![1u64, 2]; arcs.extend(std::iter::repeat(1).take(extra)); p.ect = arcs; p.order = [2, 0, 1]; p };
+    let mut subj: Vec<Op> = Vec::new();
+    let mut pred: Vec<Op> = Vec::new();
+    for k in KINDS {
+        let n = k.name();
+        let base = Plan::base(k);
+        subj.push(op(format!("{n}.valid"), k, &base));
+        subj.push(op(format!("{n}.digest-bad"), k, &with(k, Viol::D(DigestV::FlipLast))));
+        subj.push(op(format!("{n}.signature-by-other-key"), k, &with(k, Viol::S(SigV::OtherKey))));
+        subj.push(op(format!("{n}.sid-bad"), k, &with(k, Viol::I(SidV::OtherSki))));
+        subj.push(op(format!("{n}.ee-expired"), k, &with(k, Viol::E(EeV::Expired))));
+        subj.push(Op { strict: false, ..op(format!("{n}.valid.relaxed"), k, &base) });
+        // further predecessors: every remaining variant of every condition
+        for v in all_single() {
+            if matches!(v, Viol::D(DigestV::FlipLast) | Viol::S(SigV::OtherKey) | Viol::I(SidV::OtherSki) | Viol::E(EeV::Expired)) { continue }
+            if matches!(v, Viol::K(CardV::DupSame(_, pos)) | Viol::K(CardV::DupOther(_, pos)) if pos != 3) { continue }
+            let p = with(k, v);
+            pred.push(op(format!("{n}.{}", p.violated().join("")), k, &p));
+        }
+        for sv in [SigV::Short, SigV::Empty] { let p = with(k, Viol::S(sv)); pred.push(op(format!("{n}.signature:{sv:?}"), k, &p)) }
+        // decode failures at every stage
+        let good = assemble(fx, &base, &ees[&(k, EeV::Ok)]);
+        let raw = |name: &str, bytes: Vec<u8>| Op { name: format!("{n}.{name}"), kind: k, bytes, issuer: 0, strict: true, entry: entry_of(k), cb_panics: false, at: T0 };
+        pred.push(raw("empty-input", Vec::new()));
+        pred.push(raw("one-octet", vec![0x30]));
+        pred.push(raw("truncated-half", good[..good.len() / 2].to_vec()));
+        pred.push(raw("truncated-last-octet", good[..good.len() - 1].to_vec()));
+        pred.push(raw("trailing-octet", { let mut g = good.clone(); g.push(0); g }));
+        pred.push(raw("garbage", vec![0xff; 64]));
+        pred.push(raw("decoded-as-the-wrong-kind", assemble(fx, &Plan::base(if k == Kind::Roa { Kind::Mft } else { Kind::Roa }), &ees[&(if k == Kind::Roa { Kind::Mft } else { Kind::Roa }, EeV::Ok)])));
+        for pos in 0..4usize { let mut p = base.clone(); p.extra_attrs.push((pos, der::attribute(&[1, 3, 6, 1, 4, 1, 99999, 3, 1], &[der::octets(b"x")]))); pred.push(op(format!("{n}.unknown-attribute-at-{pos}"), k, &p)) }
+        { let mut p = base.clone(); p.extra_attrs.push((3, der::attr_binary_signing_time((T0 - 60) as u64))); pred.push(op(format!("{n}.binary-signing-time"), k, &p)) }
+        if k != Kind::Gen {
+            // the CMS part is fine, the eContent is not (correctly digested and signed)
+            let mut p = base.clone(); p.content = vec![0x30, 0x03, 0x02, 0x01]; pred.push(op(format!("{n}.econtent-truncated"), k, &p));
+            let mut p = base.clone(); p.content = b"not DER at all".to_vec(); pred.push(op(format!("{n}.econtent-garbage"), k, &p));
+        }
+        // other exits of validation
+        pred.push(Op { issuer: 1, ..op(format!("{n}.under-another-ca"), k, &base) });
+        pred.push(Op { issuer: 2, ..op(format!("{n}.ee-overclaims-its-issuer"), k, &base) });
+        pred.push(Op { strict: false, ..op(format!("{n}.signature-by-other-key.relaxed"), k, &with(k, Viol::S(SigV::OtherKey))) });
+        if k != Kind::Mft {
+            pred.push(Op { entry: Entry::Process(false), ..op(format!("{n}.callback-err"), k, &base) });
+            pred.push(Op { entry: Entry::Process(true), cb_panics: true, ..op(format!("{n}.callback-panics"), k, &base) });
+        }
+        if matches!(k, Kind::Mft | Kind::Gen) {
+            pred.push(Op { at: T0 - DAY - 1, ..op(format!("{n}.evaluated-before-notBefore"), k, &base) });
+            pred.push(Op { at: FAR + 1, ..op(format!("{n}.evaluated-after-notAfter"), k, &base) });
+        }
+        // the same identity with another content / the same content under another EE serial
+        let contents = content_menu(k);
+        { let mut p = base.clone(); p.content = contents[1].covered.clone(); pred.push(op(format!("{n}.same-ee-other-content"), k, &p)) }
+        { let mut ee = EeOpt::base(k); ee.serial = vec![0x55, 0x66]; pred.push(Op { bytes: assemble(fx, &base, &ee_cached(fx, &ee)), ..op(format!("{n}.same-content-other-ee-serial"), k, &base) }) }
+        // a BER respelling of a valid object: relaxed accepts, strict refuses deep inside
+        if let Some(root) = der::parse_one(&good, false) {
+            let sd = &root.children[1].children[0];
+            let path = vec![1, 0, sd.children.len() - 1, 0, 3];
+            let m = respell(&good, &root, &mut Vec::new(), &path, &Spell::Indefinite);
+            pred.push(raw("signedAttrs-indefinite-length.strict", m.clone()));
+            pred.push(Op { strict: false, ..raw("signedAttrs-indefinite-length.relaxed", m) });
+        }
+    }
+    // kind-specific subjects
+    { let c = content_menu(Kind::Roa); let mut p = Plan::base(Kind::Roa); p.content = c[0].uncovered.clone().unwrap(); subj.push(op("roa.uncovered".into(), Kind::Roa, &p)) }
+    { let c = content_menu(Kind::Aspa); let mut p = Plan::base(Kind::Aspa); p.content = c[0].uncovered.clone().unwrap(); subj.push(op("aspa.customer-uncovered".into(), Kind::Aspa, &p)) }
+    { let mut p = Plan::base(Kind::Roa); p.order = [2, 1, 0]; p.st_gen = true; subj.push(op("roa.valid.order-st,md,ct".into(), Kind::Roa, &p)) }
+    subj.push(op("generic.valid.attrs-one-octet-long-form".into(), Kind::Gen, &long_attrs(100)));
+    subj.push(op("generic.valid.attrs-two-octet-long-form".into(), Kind::Gen, &long_attrs(200)));
+    { let mut p = long_attrs(200); p.sig = SigV::OverImplicitTag; subj.push(op("generic.attrs-two-octet-long-form.signed-over-[0]".into(), Kind::Gen, &p)) }
+    { let mut p = Plan::base(Kind::Gen); p.content = (0..65536).map(|i| (i * 7 + 3) as u8).collect(); subj.push(op("generic.valid.content-65536".into(), Kind::Gen, &p)) }
+    { let mut p = Plan::base(Kind::Gen); p.st_secs = FAR + 1; p.st_gen = true; subj.push(op("generic.valid.signing-time-2050".into(), Kind::Gen, &p)) }
+    subj.push(Op { entry: Entry::Process(true), ..op("generic.valid.process".into(), Kind::Gen, &Plan::base(Kind::Gen)) });
+    subj.push(Op { entry: Entry::Process(false), ..op("generic.callback-err".into(), Kind::Gen, &Plan::base(Kind::Gen)) });
+    subj.push(Op { issuer: 1, ..op("mft.under-another-ca".into(), Kind::Mft, &Plan::base(Kind::Mft)) });
+    subj.push(Op { at: FAR + 1, ..op("mft.evaluated-after-notAfter".into(), Kind::Mft, &Plan::base(Kind::Mft)) });
+    // an ASPA whose EE certificate carries IP resources: the last check of all
+    { let mut ee = EeOpt::base(Kind::Aspa); ee.res.v4 = Claim::Blocks(vec![(0x0a00_0000, 0x0aff_ffff)]); ee.serial = vec![0x77];
+      pred.push(Op { bytes: assemble(fx, &Plan::base(Kind::Aspa), &ee_cached(fx, &ee)), ..op("aspa.ee-with-ip-resources".into(), Kind::Aspa, &Plan::base(Kind::Aspa)) }) }
+    (subj, pred)
+}
+
+fn history_independent(ctx: &Ctx, fx: &Fx, ees: &BTreeMap<(Kind, EeV), Vec<u8>>, thorough: bool) {
+    let sp = ctx.space("history.independent",
+        "on a NEW OS thread (fresh thread-locals): one predecessor (thorough: every ordered pair of predecessors), then every subject, then every subject again in reverse order; subjects: per kind {valid, digest wrong, signed by another key, sid wrong, EE expired, valid decoded relaxed} plus ROA uncovered / ASPA customer uncovered / another attribute order / signed attributes needing the one- and two-octet long-form length (valid and signed over the [0] encoding) / 65536 octets of content / signing time 2050 / process() with callback Ok and Err / another CA / evaluated after notAfter; predecessors: the subjects and, per kind, an operation leaving at every distinct stage: decode errors (empty, one octet, truncated half / last octet, trailing octet, garbage, wrong kind, an unknown attribute after 0, 1, 2, 3 valid attributes, binary-signing-time, eContent truncated / garbage under a correct signature, every cardinality and content-type variant), every digest variant, sid variants, every signature variant (other key, over the [0] encoding, over the content, last bit, one octet short, empty) strict and relaxed, every EE failure (signed by another key, AKI, expired, under another CA, overclaiming its issuer, IP resources on an ASPA EE), evaluation before / after the window, callback Err, a callback that panics (caught), the same EE certificate with another content, the same content under another EE serial, a BER respelling accepted relaxed / refused strict; oracle (differential, nothing expected by hand): every observation (verdict with its message, decoded fields, validated resources) equals the observation of the same subject evaluated first thing on its own new thread; non-trivial = compared observations that follow a different operation");
+    let issuers = hist_issuers(fx);
+    let (subj, more) = hist_ops(fx, ees);
+    let mut preds: Vec<Op> = subj.clone(); preds.extend(more);
+    let on_new_thread = |f: &(dyn Fn() -> Vec<String> + Sync)| -> Vec<String> { std::thread::scope(|sc| sc.spawn(|| f()).join().unwrap_or_else(|_| vec!["thread died".to_string()])) };
+    let fresh: Vec<String> = subj.iter().map(|s| on_new_thread(&|| vec![observe(&issuers, s)]).pop().unwrap_or_default()).collect();
+    let again: Vec<String> = subj.iter().map(|s| on_new_thread(&|| vec![observe(&issuers, s)]).pop().unwrap_or_default()).collect();
+    if fresh != again { ctx.machinery_error("history.independent: fresh-thread observations differ between two runs") }
+    sp.evals(2 * subj.len() as u64);
+    for f in &fresh { sp.outcome(if f.starts_with("accepted") { "subject-accepted-when-fresh" } else if f.starts_with("decode error") { "subject-refused-at-decode-when-fresh" } else { "subject-rejected-when-fresh" }) }
+    let pred_class: Mutex<BTreeMap<String, u64>> = Mutex::new(BTreeMap::new());
+    let mut seqs: Vec<Vec<usize>> = (0..preds.len()).map(|i| vec![i]).collect();
+    if thorough { for a in 0..preds.len() { for b in 0..preds.len() { seqs.push(vec![a, b]) } } }
+    let ns = subj.len();
+    seqs.par_iter().for_each(|seq| {
+        let obs = on_new_thread(&|| {
+            let mut out: Vec<String> = seq.iter().map(|&i| observe(&issuers, &preds[i])).collect();
+            for s in subj.iter() { out.push(observe(&issuers, s)) }
+            for s in subj.iter().rev() { out.push(observe(&issuers, s)) }
+            out
+        });
+        if obs.len() != seq.len() + 2 * ns { fail("C02.history.independent", format!("predecessors={}", seq.iter().map(|&i| preds[i].name.as_str()).collect::<Vec<_>>().join(" -> ")), format!("the thread running the sequence died: {:?}", obs.last())); return }
+        sp.evals(obs.len() as u64); sp.nontrivial(2 * ns as u64);
+        if seq.len() == 1 {
+            let o = &obs[0];
+            let cls = if o.starts_with("accepted") { "accepted".to_string() } else if o.starts_with("decode error") { "decode error".to_string() } else if o.starts_with("panic") { "panic (callback)".to_string() }
+                else { format!("rejected: {}", trunc(o.split("rejected: ").nth(1).unwrap_or(""), 48)) };
+            *pred_class.lock().unwrap().entry(cls).or_insert(0) += 1;
+        }
+        for j in 0..2 * ns {
+            let si = if j < ns { j } else { 2 * ns - 1 - j };
+            let got = &obs[seq.len() + j];
+            if *got != fresh[si] {
+                fail("C02.history.independent", format!("new thread: {} -> subjects in order{} ; subject={} ({} pass, position {})", seq.iter().map(|&i| preds[i].name.as_str()).collect::<Vec<_>>().join(" -> "),
+                        if j < ns { "" } else { " -> subjects in reverse order" }, subj[si].name, if j < ns { "forward" } else { "reverse" }, j % ns + 1),
+                    format!("after this history: `{}`; first thing on a new thread: `{}`", trunc(got, 200), trunc(&fresh[si], 200)));
+                // one report per sequence: what follows is usually the same corruption
+                break;
+            }
+        }
+    });
+    let pc = pred_class.into_inner().unwrap();
+    for (k, n) in &pc { sp.outcomes_n(&format!("predecessor: {k}"), *n) }
+    sp.set("subjects", serde_json::json!(subj.iter().zip(&fresh).map(|(s, f)| format!("{} -> {}", s.name, trunc(f, 100))).collect::<Vec<_>>()));
+    sp.set("predecessors", serde_json::json!(preds.len()));
+    sp.set("predecessor_exit_paths", serde_json::json!(pc.len()));
+    sp.sample_str(|| format!("new thread: roa.signature:FlipLastBit -> {} subjects -> the same in reverse; each compared with its fresh-thread observation, e.g. {} -> {}", ns, subj[0].name, trunc(&fresh[0], 120)));
+    sp.done(true, &format!("{} predecessors{} x {} subjects forward and in reverse, one new OS thread per sequence", preds.len(), if thorough { " and all their ordered pairs" } else { "" }, ns));
+}
+
+//------------ environment: TZ ---------------------------------------------------------------------------------------------
+
+/// What a child process started under another TZ must reproduce octet for octet.
+fn env_observations() -> Vec<String> {
+    let fx = Fx::load();
+    let ees = ee_table(&fx);
+    let issuers = hist_issuers(&fx);
+    let (subj, _) = hist_ops(&fx, &ees);
+    let mut out: Vec<String> = subj.iter().map(|s| format!("{} -> {}", s.name, observe(&issuers, s))).collect();
+    // the signing-time domain in both forms, read back as seconds since the epoch, and the verdict
+    for (label, secs) in st_instants() { for gt in [false, true] {
+        if !gt && !utc_expressible(secs) { continue }
+        let mut p = Plan::base(Kind::Gen); p.st_secs = secs; p.st_gen = gt;
+        let o = Op { name: String::new(), kind: Kind::Gen, bytes: assemble(&fx, &p, &ees[&(Kind::Gen, EeV::Ok)]), issuer: 0, strict: true, entry: Entry::At, cb_panics: false, at: T0 };
+        out.push(format!("signing-time {label} as {} -> {}", if gt { "GeneralizedTime" } else { "UTCTime" }, observe(&issuers, &o)));
+    }}
+    // evaluation instants around the ends of EE windows written as UTCTime / GeneralizedTime, around midnight and DST change dates
+    for (nb, na) in [(T0 - DAY, FAR), (1_711_846_800 - 3600, 1_711_846_800 + 3600), (1_699_142_400, 1_699_228_800), (FAR + 1, FAR + 1 + DAY), (Y1950, Y1950 + DAY)] {
+        for k in [Kind::Mft, Kind::Gen] {
+            let mut ee = EeOpt::base(k); ee.nb = nb; ee.na = na; ee.serial = vec![9];
+            let bytes = assemble(&fx, &Plan::base(k), &ee_cached(&fx, &ee));
+            for at in [nb - 1, nb, nb + 1, na - 1, na, na + 1] {
+                let o = Op { name: String::new(), kind: k, bytes: bytes.clone(), issuer: 0, strict: true, entry: Entry::At, cb_panics: false, at };
+                out.push(format!("{} EE window {}..{} evaluated at {} -> {}", k.name(), nb, na, at, observe(&issuers, &o)));
+            }
+        }
+    }
+    // manifest times
+    for c in content_menu(Kind::Mft) {
+        let mut p = Plan::base(Kind::Mft); p.content = c.covered.clone();
+        let o = Op { name: String::new(), kind: Kind::Mft, bytes: assemble(&fx, &p, &ees[&(Kind::Mft, EeV::Ok)]), issuer: 0, strict: true, entry: Entry::At, cb_panics: false, at: T0 };
+        out.push(format!("manifest {} -> {}", c.label, observe(&issuers, &o)));
+    }
+    out
+}
+
+fn environment_tz(ctx: &Ctx) {
+    let sp = ctx.space("environment.tz",
+        "the explorer re-executes itself with TZ set to UTC, America/New_York, Asia/Tokyo, Pacific/Chatham, the POSIX strings EST5EDT and <-03>3 and an unusable value, and compares: the full observation (verdict, message, decoded fields as seconds since the epoch, validated resources) of the subjects of history.independent; the decoded signing time and verdict for the whole signing-time domain in both forms; the verdicts at 6 instants around both ends of 5 EE windows (UTCTime, a European and an American DST change date, 2050 GeneralizedTime, 1950) for manifest and generic object; every manifest of the ignored-field content menu (thisUpdate / nextUpdate read back); oracle: identical in every environment and in this process; non-trivial = every observation compared");
+    let here = env_observations();
+    let exe = std::env::current_exe().expect("own path");
+    let mut usable = 0;
+    for tz in ["UTC", "America/New_York", "Asia/Tokyo", "Pacific/Chatham", "EST5EDT", "<-03>3", ":/nonexistent/zone"] {
+        let out = std::process::Command::new(&exe).arg("--observe-env").env("TZ", tz).output();
+        let Ok(out) = out else { ctx.machinery_error(format!("cannot re-execute for TZ={tz}")); continue };
+        if !out.status.success() { fail("C02.environment.tz", format!("TZ={tz}"), format!("child ended with {:?}: {}", out.status, trunc(&String::from_utf8_lossy(&out.stderr), 300))); continue }
+        let lines: Vec<String> = String::from_utf8_lossy(&out.stdout).lines().map(|l| l.to_string()).collect();
+        if lines.len() != here.len() { fail("C02.environment.tz", format!("TZ={tz}"), format!("{} observations, {} here", lines.len(), here.len())); continue }
+        usable += 1;
+        for (a, b) in lines.iter().zip(&here) {
+            sp.eval(); sp.nontrivial(1);
+            if a != b { fail("C02.environment.tz", format!("TZ={tz} {}", b.split(" -> ").next().unwrap_or("")), format!("with TZ={tz}: `{}`; in this process: `{}`", trunc(a, 200), trunc(b, 200))) }
+        }
+    }
+    for l in &here { sp.outcome(if l.contains("-> accepted") { "accepted" } else if l.contains("decode error") { "refused-at-decode" } else { "rejected" }) }
+    sp.set("environments", serde_json::json!(usable));
+    sp.set("observations", serde_json::json!(here.len()));
+    if !std::path::Path::new("/usr/share/zoneinfo/America/New_York").exists() { ctx.assume("environment.tz: no zone database in this sandbox; only the POSIX TZ strings change the local zone") }
+    sp.sample_str(|| trunc(&here[0], 200));
+    sp.done(true, &format!("7 TZ settings x {} observations", here.len()));
 }
